@@ -52,6 +52,7 @@ extern "C" int LLVMFuzzerTestOneInput(const uint8_t *data, size_t size) {
   case 3: doc = "[" + objs + "]"; break;
   case 4: doc = fdp.ConsumeBool() ? "123" : "\"str\""; break;
   }
+  G_PAGEGUARD = guard && pollute && (entry & 1);   // (no new input byte: existing corpus entries keep their meaning) one combination in eight runs with the page-guard allocator
   load_with_oracle(entry, prov, doc, guard, pollute);
   return 0;
 }
